@@ -171,6 +171,16 @@ def prepare(case, ctx):
 
 # ------------------------------------------------------------------------------------------------ oracles
 
+def fibre_input_above_10dbm(p):
+    """the properties are stated for per-channel powers up to +10 dBm into a fibre (far above, the first-order NLI estimate
+    exceeds the channel power, which the model does not claim to handle); such a design arises when an operator-set gain
+    far beyond the amplifier's range is applied in gain mode"""
+    for r in p.rec.records:
+        if r['kind'] in ('Fiber', 'RamanFiber') and len(r['before']['pch']) and float(r['before']['pch'].max()) > 10e-3:
+            return True
+    return False
+
+
 def _close(a, b, rtol, atol=0.0):
     return abs(a - b) <= rtol * max(abs(a), abs(b)) + atol
 
@@ -203,6 +213,9 @@ def run_c01(case, ctx):
         return
     if p.error is not None:
         ctx.label('skipped:no-channel-in-band')
+        return
+    if fibre_input_above_10dbm(p):
+        ctx.label('not-judged:fibre-input-above-10dBm')
         return
     kinds = set()
     namp = nfib = 0
@@ -252,6 +265,9 @@ def run_c02(case, ctx):
         return
     if p.error is not None:
         ctx.label('skipped:no-channel-in-band')
+        return
+    if fibre_input_above_10dbm(p):
+        ctx.label('not-judged:fibre-input-above-10dBm')
         return
     kinds = set()
     grew_a = grew_n = False
